@@ -564,3 +564,9 @@ Proof.
   replace (ex_env (r_sI P00)) with 0 by (symmetry; apply sq_zero; rewrite SI; lra).
   exact gaussian_pair_dirac.
 Qed.
+
+(* ================= 9. summary statements used by Props/C04.v ================= *)
+Lemma relax_paths_ok : forallb (fun p => rp_samplers_ok p && product_ok p && defs_static_ok p) gen_relax_paths = true.
+Proof. vm_compute. reflexivity. Qed.
+Theorem shot_env_is_run p rho0 w i : In p gen_relax_paths -> respects rho0 (rp_defs p) -> respects (sample_env p rho0 w i) (rp_defs p).
+Proof. intros Hin. apply sample_env_respects. pose proof relax_defs_static as H. rewrite forallb_forall in H. now apply H. Qed.
